@@ -4,7 +4,10 @@
 //!   producer `m<x>` (`Sender::modify` pushing `x`), `D` (drop sender); consumer `s` (create a `recv()` future),
 //!   `p` (poll it once), `c` (drop it), `X` (drop the receiver and its future). Output per op `<result>:<wakes>`.
 //! * `slot <op>;…`  `MetadataUpdate::merge_*` on a slot through `UpdateSlot`: `F<tag>`/`R<tag>` merge_metadata
-//!   without/with a refresh request, `T<tag>` merge_topology_update, `U<addr>`/`W<addr>` up/down hint, `K` take.
+//!   without/with a refresh request (metadata without client routes configured), `G<tag>/<routes>`/`H<tag>/<routes>`
+//!   the same with client routes configured (`<routes>` = `-` or `host.conn.port,…`), `C<entries>`
+//!   merge_client_routes_update (`host.conn.port` upsert / `host.conn.x` removal), `T<tag>` merge_topology_update,
+//!   `U<addr>`/`W<addr>` up/down hint, `K` take.
 //! * `stress <n> <mode> <seed>`  producer OS thread merges `0..n` then drops; consumer on a tokio runtime receives
 //!   until `None` (mode 1/2: inside a `select!` that keeps cancelling and restarting `recv`); oracle only.
 //! * `race <reps> <n> <seed>`  `reps` rounds of a tiny stream whose last merge is immediately followed by the drop.
@@ -201,23 +204,48 @@ fn sloppy_chan(rng: &mut Rng, len: usize) -> String {
     format!("chan {}", ops.join(";"))
 }
 
+fn route_entry(rng: &mut Rng, allow_removal: bool) -> String {
+    let p = if allow_removal && rng.chance(1, 3) { "x".to_string() } else { rng.range(1, 3).to_string() };
+    format!("{}.{}.{}", rng.range(1, 2), rng.range(1, 2), p)
+}
+
+fn route_list(rng: &mut Rng, allow_removal: bool, allow_empty: bool) -> String {
+    let n = rng.range(if allow_empty { 0 } else { 1 }, 3);
+    if n == 0 {
+        return "-".into();
+    }
+    (0..n).map(|_| route_entry(rng, allow_removal)).collect::<Vec<_>>().join(",")
+}
+
 fn random_slot(rng: &mut Rng, len: usize) -> String {
-    let (wf, wr, wt, wh, wk) = *rng.pick(&[(3u64, 3u64, 3u64, 3u64, 2u64), (1, 6, 2, 1, 1), (1, 1, 6, 2, 2), (2, 2, 2, 8, 1), (4, 4, 4, 0, 4)]);
+    // weights: full fetch (F/R), full fetch with routes (G/H), topology, hint, client routes, take
+    let (wf, wg, wt, wh, wc, wk) = *rng.pick(&[
+        (3u64, 2u64, 3u64, 3u64, 3u64, 2u64),
+        (4, 1, 2, 1, 1, 1),
+        (1, 1, 6, 2, 2, 2),
+        (2, 1, 2, 8, 1, 1),
+        (1, 4, 2, 0, 6, 2),
+        (0, 3, 1, 0, 8, 2),
+        (2, 0, 2, 0, 6, 3),
+    ]);
     let mut tag = 0u64;
     let ops: Vec<String> = (0..len)
         .map(|_| {
-            let k = rng.below(wf + wr + wt + wh + wk);
+            let k = rng.below(wf + wg + wt + wh + wc + wk);
             if k < wf {
                 tag += 1;
-                format!("F{}", tag)
-            } else if k < wf + wr {
+                format!("{}{}", if rng.bool() { 'F' } else { 'R' }, tag)
+            } else if k < wf + wg {
                 tag += 1;
-                format!("R{}", tag)
-            } else if k < wf + wr + wt {
+                format!("{}{}/{}", if rng.bool() { 'G' } else { 'H' }, tag, route_list(rng, false, true))
+            } else if k < wf + wg + wt {
                 tag += 1;
                 format!("T{}", tag)
-            } else if k < wf + wr + wt + wh {
+            } else if k < wf + wg + wt + wh {
                 format!("{}{}", if rng.bool() { 'U' } else { 'W' }, rng.range(1, 4))
+            } else if k < wf + wg + wt + wh + wc {
+                let allow_empty = rng.chance(1, 10);
+                format!("C{}", route_list(rng, true, allow_empty))
             } else {
                 "K".into()
             }
@@ -226,21 +254,31 @@ fn random_slot(rng: &mut Rng, len: usize) -> String {
     format!("slot {}", ops.join(";"))
 }
 
-fn exhaustive_slot(depth: usize, emit: &mut dyn FnMut(String)) {
-    // alphabet: F R T U1 W1 K ; tags numbered by position so that "latest" is observable
-    fn rec(ops: &mut Vec<String>, depth: usize, emit: &mut dyn FnMut(String)) {
+/// All sequences of `depth` ops over the alphabet, each followed by a take; tags numbered by position so that
+/// "latest" is observable. `routes`: also the client-routes ops (upsert, removal, full fetch with routes).
+fn exhaustive_slot(depth: usize, routes: bool, emit: &mut dyn FnMut(String)) {
+    fn rec(ops: &mut Vec<String>, depth: usize, routes: bool, emit: &mut dyn FnMut(String)) {
         if ops.len() == depth {
             emit(format!("slot {};K", ops.join(";")));
             return;
         }
         let t = ops.len() + 1;
-        for w in [format!("F{}", t), format!("R{}", t), format!("T{}", t), "U1".to_string(), "W1".to_string(), "K".to_string()] {
+        let mut alphabet = vec![format!("F{}", t), format!("R{}", t), format!("T{}", t), "K".to_string()];
+        if routes {
+            alphabet.push(format!("C1.1.{}", t));
+            alphabet.push("C1.1.x,1.2.7".to_string());
+            alphabet.push(format!("H{}/1.1.9", t));
+        } else {
+            alphabet.push("U1".to_string());
+            alphabet.push("W1".to_string());
+        }
+        for w in alphabet {
             ops.push(w);
-            rec(ops, depth, emit);
+            rec(ops, depth, routes, emit);
             ops.pop();
         }
     }
-    rec(&mut Vec::new(), depth, emit);
+    rec(&mut Vec::new(), depth, routes, emit);
 }
 
 pub fn generate(rng: &mut Rng, tier: Tier, emit: &mut dyn FnMut(String)) {
@@ -249,7 +287,7 @@ pub fn generate(rng: &mut Rng, tier: Tier, emit: &mut dyn FnMut(String)) {
     {
         let mut push = |c: String| light.push(c);
         // exhaustive legal interleavings at poll granularity
-        exhaustive(if quick { 10 } else { 13 }, &mut push);
+        exhaustive(if quick { 9 } else { 13 }, &mut push);
         // random long runs
         for _ in 0..(if quick { 4_000 } else { 60_000 }) {
             let len = *rng.pick(&[12usize, 20, 40, 80, 200]);
@@ -260,8 +298,9 @@ pub fn generate(rng: &mut Rng, tier: Tier, emit: &mut dyn FnMut(String)) {
             push(sloppy_chan(rng, len));
         }
         // slot merges
-        exhaustive_slot(if quick { 5 } else { 6 }, &mut push);
-        for _ in 0..(if quick { 3_000 } else { 50_000 }) {
+        exhaustive_slot(if quick { 4 } else { 6 }, false, &mut push);
+        exhaustive_slot(if quick { 4 } else { 6 }, true, &mut push);
+        for _ in 0..(if quick { 4_000 } else { 60_000 }) {
             let len = rng.range(1, 30) as usize;
             push(random_slot(rng, len));
         }
@@ -273,8 +312,8 @@ pub fn generate(rng: &mut Rng, tier: Tier, emit: &mut dyn FnMut(String)) {
         heavy.push(format!("stress {} {} {}", if i % 6 == 0 { n / 100 } else { n }, i % 3, rng.below(1 << 32)));
     }
     // end-of-stream race (last merge immediately followed by the drop), repeated many times per case
-    for i in 0..(if quick { 48 } else { 320 }) {
-        heavy.push(format!("race {} {} {}", if quick { 20_000 } else { 50_000 }, i % 4 + 1, rng.below(1 << 32)));
+    for i in 0..(if quick { 24 } else { 320 }) {
+        heavy.push(format!("race {} {} {}", if quick { 12_000 } else { 50_000 }, i % 4 + 1, rng.below(1 << 32)));
     }
     if !quick {
         heavy.push(format!("stress 1000000 0 {}", rng.below(1 << 32)));
@@ -510,6 +549,56 @@ fn dash(xs: Vec<String>) -> String {
     if xs.is_empty() { "-".into() } else { xs.join(",") }
 }
 
+/// Reference for the client-routes part of a slot (written from update.rs' doc comments, independent of the Lean
+/// model): what the consumer must find at the next take.
+#[derive(Clone, PartialEq, Debug)]
+enum RoutesRef {
+    /// nothing about client routes in the slot
+    Absent,
+    /// pending partial update: latest entry per (host, conn) wins; `None` = removal
+    Partial(std::collections::BTreeMap<(u64, u16), Option<u16>>),
+    /// full fetch with client routes configured: the snapshot, with later partial updates applied
+    Full(std::collections::BTreeMap<(u64, u16), u16>),
+    /// full fetch, client routes not configured: updates are ignored
+    FullUnconfigured,
+}
+
+fn parse_route_entries(s: &str, allow_removal: bool) -> Option<Vec<(u64, u16, Option<u16>)>> {
+    if s == "-" {
+        return Some(vec![]);
+    }
+    s.split(',')
+        .map(|e| {
+            let parts: Vec<&str> = e.split('.').collect();
+            if parts.len() != 3 {
+                return None;
+            }
+            let h = parts[0].parse().ok()?;
+            let c = parts[1].parse().ok()?;
+            let p = if parts[2] == "x" {
+                if !allow_removal {
+                    return None;
+                }
+                None
+            } else {
+                Some(parts[2].parse().ok()?)
+            };
+            Some((h, c, p))
+        })
+        .collect()
+}
+
+fn fmt_routes(r: &Option<Vec<(u64, u16, Option<u16>)>>) -> String {
+    match r {
+        None => "none".into(),
+        Some(v) => dash(
+            v.iter()
+                .map(|(h, c, p)| format!("{}.{}.{}", h, c, p.map(|p| p.to_string()).unwrap_or_else(|| "x".into())))
+                .collect(),
+        ),
+    }
+}
+
 fn run_slot(body: &str, ctx: &mut Ctx) -> String {
     let mut slot = hooks::UpdateSlot::new();
     // oracle state since the last take
@@ -517,6 +606,8 @@ fn run_slot(body: &str, ctx: &mut Ctx) -> String {
     let mut ever_answered: Vec<u64> = Vec::new();
     let mut latest_tag: Option<u64> = None;
     let mut any_full = false;
+    let mut any_partial = false;
+    let mut routes = RoutesRef::Absent;
     let mut hints: std::collections::BTreeMap<u16, bool> = Default::default();
     let mut out = Vec::new();
     for (i, op) in body.split(';').filter(|o| !o.is_empty()).enumerate() {
@@ -541,7 +632,7 @@ fn run_slot(body: &str, ctx: &mut Ctx) -> String {
             if view.peers_tag != latest_tag {
                 ctx.fail(format!("op {}: taken topology {:?}, latest merged {:?}", i, view.peers_tag, latest_tag));
             }
-            let want_kind = if any_full { "full" } else if latest_tag.is_some() { "partial" } else { "none" };
+            let want_kind = if any_full { "full" } else if any_partial { "partial" } else { "none" };
             if view.kind != want_kind {
                 ctx.fail(format!("op {}: taken kind {}, expected {}", i, view.kind, want_kind));
             }
@@ -549,18 +640,90 @@ fn run_slot(body: &str, ctx: &mut Ctx) -> String {
             if view.hints != want_hints {
                 ctx.fail(format!("op {}: taken hints {:?}, latest per address {:?}", i, view.hints, want_hints));
             }
+            let want_routes: Option<Vec<(u64, u16, Option<u16>)>> = match &routes {
+                RoutesRef::Absent | RoutesRef::FullUnconfigured => None,
+                RoutesRef::Partial(m) => Some(m.iter().map(|(k, p)| (k.0, k.1, *p)).collect()),
+                RoutesRef::Full(m) => Some(m.iter().map(|(k, p)| (k.0, k.1, Some(*p))).collect()),
+            };
+            if view.routes != want_routes {
+                ctx.fail(format!("op {}: taken client routes {}, expected {}", i, fmt_routes(&view.routes), fmt_routes(&want_routes)));
+            }
             out.push(format!(
-                "{} peers={} refresh={} hints={} lost={}",
+                "{} peers={} refresh={} hints={} routes={} lost={}",
                 view.kind,
                 view.peers_tag.map(|t| t.to_string()).unwrap_or_else(|| "-".into()),
                 dash(view.refresh_ids.iter().map(|x| x.to_string()).collect()),
                 dash(view.hints.iter().map(|(a, u)| format!("{}{}", a, if *u { '+' } else { '-' })).collect()),
+                fmt_routes(&view.routes),
                 dash(lost.iter().map(|x| x.to_string()).collect()),
             ));
             outstanding.clear();
             latest_tag = None;
             any_full = false;
+            any_partial = false;
+            routes = RoutesRef::Absent;
             hints.clear();
+            continue;
+        }
+        if c == "C" {
+            let Some(entries) = parse_route_entries(arg, true) else { return "bad-case".into() };
+            slot.merge_client_routes(&entries);
+            match &mut routes {
+                RoutesRef::Absent => {
+                    any_partial = true;
+                    routes = RoutesRef::Partial(entries.iter().map(|&(h, c, p)| ((h, c), p)).collect());
+                }
+                RoutesRef::Partial(m) => {
+                    for &(h, c, p) in &entries {
+                        m.insert((h, c), p);
+                    }
+                }
+                RoutesRef::Full(m) => {
+                    // later entries of the same update override earlier ones before it is applied
+                    let upd: std::collections::BTreeMap<(u64, u16), Option<u16>> = entries.iter().map(|&(h, c, p)| ((h, c), p)).collect();
+                    for (k, p) in upd {
+                        match p {
+                            Some(p) => {
+                                m.insert(k, p);
+                            }
+                            None => {
+                                m.remove(&k);
+                            }
+                        }
+                    }
+                }
+                RoutesRef::FullUnconfigured => {}
+            }
+            if !any_full {
+                any_partial = true;
+            }
+            out.push("-".into());
+            continue;
+        }
+        if c == "G" || c == "H" {
+            let Some((tag, rs)) = arg.split_once('/') else { return "bad-case".into() };
+            let Ok(tag) = tag.parse::<u64>() else { return "bad-case".into() };
+            let Some(entries) = parse_route_entries(rs, false) else { return "bad-case".into() };
+            let entries: Vec<(u64, u16, u16)> = entries.into_iter().map(|(h, c, p)| (h, c, p.unwrap())).collect();
+            let id = slot.merge_metadata_with_routes(tag, c == "H", &entries);
+            latest_tag = Some(tag);
+            any_full = true;
+            routes = RoutesRef::Full(entries.iter().map(|&(h, c, p)| ((h, c), p)).collect());
+            match (c, id) {
+                ("H", Some(id)) => {
+                    outstanding.push(id);
+                    out.push(format!("r{}", id));
+                }
+                ("H", None) => {
+                    ctx.fail(format!("op {}: no refresh id", i));
+                    out.push("r?".into());
+                }
+                (_, Some(_)) => {
+                    ctx.fail(format!("op {}: refresh id returned for a merge without refresh", i));
+                    out.push("-".into());
+                }
+                _ => out.push("-".into()),
+            }
             continue;
         }
         let Ok(n) = arg.parse::<u64>() else { return "bad-case".into() };
@@ -571,12 +734,14 @@ fn run_slot(body: &str, ctx: &mut Ctx) -> String {
                 }
                 latest_tag = Some(n);
                 any_full = true;
+                routes = RoutesRef::FullUnconfigured;
                 out.push("-".into());
             }
             "R" => {
                 let id = slot.merge_metadata(n, true);
                 latest_tag = Some(n);
                 any_full = true;
+                routes = RoutesRef::FullUnconfigured;
                 match id {
                     Some(id) => {
                         outstanding.push(id);
@@ -591,6 +756,9 @@ fn run_slot(body: &str, ctx: &mut Ctx) -> String {
             "T" => {
                 slot.merge_topology(n);
                 latest_tag = Some(n);
+                if !any_full {
+                    any_partial = true;
+                }
                 out.push("-".into());
             }
             "U" | "W" => {
